@@ -473,15 +473,15 @@ def _cast(v, src, dst):
             return _wrap_int(int(v), dst)
         if src.kind == "f":
             if is_sym(v):
-                return _uf_cast(v, src, dst)
+                return _fp_to_int(v, src, dst)
             return _wrap_int(int(v), dst)
     if dst.kind == "f":
         if is_sym(v):
             if src.kind == "f" and src.itemsize == dst.itemsize:
                 return v
-            return _uf_cast(v, src, dst)
-        if E().notes.get("float_bits"):
-            return _float_bits(float(v), dst)
+            return _to_float_bits(v, src, dst)
+        if src.kind == "f" and src.itemsize > dst.itemsize:
+            return _round_float(float(v), dst)
         return float(v)
     raise ShimUnsupported(f"cast {src}->{dst}")
 
@@ -490,6 +490,107 @@ def _float_bits(x, dt):
     import struct
     fmt = {2: ("<e", "<H"), 4: ("<f", "<I"), 8: ("<d", "<Q")}[dt.itemsize]
     return z3.BitVecVal(struct.unpack(fmt[1], struct.pack(fmt[0], x))[0], dt.bits)
+
+
+def _round_float(x, dt):
+    """round a python double to the precision of dt (as a python float)"""
+    import struct
+    if dt.itemsize == 8:
+        return x
+    fmt = {2: "<e", 4: "<f"}[dt.itemsize]
+    try:
+        return struct.unpack(fmt, struct.pack(fmt, x))[0]
+    except OverflowError:
+        return float("inf") if x > 0 else float("-inf")
+
+
+def _to_float_bits(v, src, dst):
+    """exact conversion of a symbolic bool / integer / float cell to the bit pattern of its float value (IEEE, round to nearest even)"""
+    e = E()
+    e.has_bv = True
+    srt = _FPS[dst.itemsize]
+    if z3.is_bool(v):
+        return z3.If(v, _float_bits(1.0, dst), _float_bits(0.0, dst))
+    if src.kind == "f":
+        r = z3.fpFPToFP(z3.RNE(), _to_fp(v, src), srt)
+    elif z3.is_bv(v) and _is_bits_term(v):
+        r = z3.fpRealToFP(z3.RNE(), z3.ToReal(_bv_to_int(v)), srt)
+    elif z3.is_bv(v):
+        r = z3.fpSignedToFP(z3.RNE(), v, srt) if src.kind == "i" else z3.fpUnsignedToFP(z3.RNE(), v, srt)
+    else:
+        r = z3.fpRealToFP(z3.RNE(), z3.ToReal(v), srt)
+    out = z3.fpToIEEEBV(r)
+    if src.kind in "iu":
+        e.notes.setdefault("i2f", {})[out.get_id()] = (out, v, src)      # for the exact int -> float -> int round trip
+    return out
+
+
+def _fp_to_int(v, src, dst):
+    memo = E().notes.get("i2f", {}).get(v.get_id())
+    if memo is not None and memo[0].eq(v):
+        # int -> float -> int round trip: exact for |x| < 2^53 (the harness bounds keep index-like values far below)
+        return _cast(memo[1], memo[2], dst)
+    if z3.is_app(v) and v.decl().kind() == z3.Z3_OP_ITE:
+        return z3.If(v.arg(0), _lift(_fp_to_int(v.arg(1), src, dst)), _lift(_fp_to_int(v.arg(2), src, dst)))
+    fp = _to_fp(v, src)
+    return z3.fpToSBV(z3.RTZ(), fp, z3.BitVecSort(dst.bits)) if dst.kind == "i" else z3.fpToUBV(z3.RTZ(), fp, z3.BitVecSort(dst.bits))
+
+
+def _exact_int_of(v):
+    if not is_sym(v):
+        f = float(v)
+        return int(f) if f == f and f not in (float("inf"), float("-inf")) and f.is_integer() and builtins.abs(f) < 2 ** 53 else None
+    memo = E().notes.get("i2f", {}).get(v.get_id())
+    if memo is not None and memo[0].eq(v) and z3.is_int(memo[1]):
+        return memo[1]
+    return None
+
+
+def _fp_apply(n, vals, dt):
+    """float arithmetic, IEEE-exact (round to nearest even): cells are bit patterns (symbolic) or python floats (concrete)"""
+    if _py_all(not is_sym(v) for v in vals):
+        a = float(vals[0])
+        b = float(vals[1]) if len(vals) > 1 else None
+        try:
+            r = {"add": lambda: a + b, "subtract": lambda: a - b, "multiply": lambda: a * b,
+                 "true_divide": lambda: (a / b if b != 0 else (float("nan") if a == 0 or a != a else float("inf") * (1 if (a > 0) == (str(b)[0] != "-") else -1))),
+                 "negative": lambda: -a, "absolute": lambda: builtins.abs(a), "maximum": lambda: (a if a >= b or a != a else b),
+                 "minimum": lambda: (a if a <= b or a != a else b)}[n]()
+        except OverflowError:
+            r = float("inf")
+        return _round_float(r, dt)
+    if n in ("add", "subtract", "multiply") and dt.itemsize == 8:
+        # both operands are exact conversions of (Int-represented, bounded) integers: the float result is the conversion of the integer
+        # result (exact below 2^53; the harness bounds keep such values far below)
+        xs = [_exact_int_of(v) for v in vals]
+        if _py_all(x is not None for x in xs):
+            r = _arith({"add": "add", "subtract": "sub", "multiply": "mul"}[n], xs[0], xs[1])
+            return _to_float_bits(r, _I64, dt) if is_sym(r) else float(r)
+    E().has_bv = True
+    fps = [_to_fp(v, dt) for v in vals]
+    rm = z3.RNE()
+    if n == "add":
+        r = z3.fpAdd(rm, fps[0], fps[1])
+    elif n == "subtract":
+        r = z3.fpSub(rm, fps[0], fps[1])
+    elif n == "multiply":
+        r = z3.fpMul(rm, fps[0], fps[1])
+    elif n == "true_divide":
+        r = z3.fpDiv(rm, fps[0], fps[1])
+    elif n == "negative":
+        r = z3.fpNeg(fps[0])
+    elif n == "absolute":
+        r = z3.fpAbs(fps[0])
+    elif n == "maximum":
+        r = z3.If(z3.Or(z3.fpIsNaN(fps[0]), z3.fpGEQ(fps[0], fps[1])), fps[0], fps[1])
+    elif n == "minimum":
+        r = z3.If(z3.Or(z3.fpIsNaN(fps[0]), z3.fpLEQ(fps[0], fps[1])), fps[0], fps[1])
+    else:
+        raise ShimUnsupported("float ufunc " + n)
+    return z3.fpToIEEEBV(r)
+
+
+_FP_UFUNCS = ("add", "subtract", "multiply", "true_divide", "negative", "absolute", "maximum", "minimum")
 
 
 def _uf_cast(v, src, dst):
@@ -1691,6 +1792,8 @@ class ufunc:
 
     def _apply(self, vals, dt):
         n = self.__name__
+        if dt.kind == "f" and n in _FP_UFUNCS:
+            return _fp_apply(n, vals, dt)
         if n in _UF_IMPL:
             return _UF_IMPL[n](vals[0], vals[1], dt)
         if n in _CMP:
@@ -1725,8 +1828,8 @@ class ufunc:
         in_dt = self._res_dtype(ops)
         n = self.__name__
         out_dt = _BOOL if (n in _CMP or n in _LOGICAL or n == "logical_not") else in_dt
-        if n == "true_divide":
-            raise ShimUnsupported("true_divide")
+        if n == "true_divide" and in_dt.kind in "iub":
+            in_dt = out_dt = _F64             # numpy: true division of integers / bools is carried out in float64
         shp = ()
         for o in ops:
             shp = _bshape(shp, o[1])
@@ -2184,17 +2287,21 @@ def bincount(x, weights=None, minlength=0):
         size = minlength
     w = asarray(weights)._cells() if weights is not None else None
     out = []
+    wfloat = weights is not None and asarray(weights).dtype.kind == "f"
     for k in range(size):
-        acc = 0
+        acc = 0.0 if wfloat else 0
         for i, c in enumerate(xs):
-            acc = _arith("add", acc, _ite(_eq(c, k), 1 if w is None else w[i], 0))
+            if wfloat:
+                acc = _ite(_eq(c, k), _fp_apply("add", [acc, w[i]], _F64), acc)     # numpy adds the weights in input order, in float64
+            else:
+                acc = _arith("add", acc, _ite(_eq(c, k), 1 if w is None else w[i], 0))
         out.append(acc)
     if w is not None:
         # numpy accumulates weighted counts in float64: the exact integer sum converted to float (exact below 2^53; the harness bounds
         # keep sums far below), carried as an int->float conversion term so that int(float(x)) round trips stay exact
         wdt = asarray(weights).dtype
         src = wdt if wdt.kind in "iub" else _I64
-        out = [(_uf_cast(c, _I64, _F64) if is_sym(c) else float(c)) for c in out] if wdt.kind != "f" else out
+        out = [(_to_float_bits(c, _I64, _F64) if is_sym(c) else float(c)) for c in out] if wdt.kind != "f" else out
         return ndarray(_Store(out), list(range(size)), (size,), _F64)
     return ndarray(_Store(out), list(range(size)), (size,), _I64)
 
